@@ -629,6 +629,27 @@ def run_binding(ctx, rng, tier, res, edge_vecs, layouts, mc_futs):
     ctx.log("trace validation: abstract %d records (%d TLC steps, %d chunks), algorithm %d records (%d steps, %d chunks)" % (
         nrec_abs, st_abs, ch_abs, nrec_alg, st_alg, ch_alg))
 
+    # ---- the trace specs can say no: corrupt one record of the smallest clean case each
+    demo = {}
+    clean = [cid for cid in alg_tr if cid not in bad_abs and cid not in bad_alg and len(alg_tr[cid]) > 3]
+    if clean:
+        cid = min(clean, key=lambda c: steps_of(alg_tr[c]))
+        import copy
+        ta, tb = copy.deepcopy(abs_tr[cid]), copy.deepcopy(alg_tr[cid])
+        ia = next((i for i, r in enumerate(ta) if r["k"] == "seek" and r["res"] == "ok"), None)
+        ib = next((i for i, r in enumerate(tb) if r["k"] == "reads" and r["n"] > 0), None)
+        if ia is not None and ib is not None:
+            ta[ia]["cur"] += 1              # "landed one line further"
+            tb[ib]["bs"] += 1               # "buffer starts one byte later"
+            if "bss" in tb[ib]:
+                tb[ib]["bss"][-1] += 1
+            da, _, _, _ = validate_traces(ctx, "TraceQLogFile", {cid: ta}, 10**9, 1, 600)
+            db, _, _, _ = validate_traces(ctx, "TraceQLogFileAlg", {cid: tb}, 10**9, 1, 600)
+            demo = {"abstract_corrupted_op_rejected": da.get(cid, []) == [ta[ia]["oi"]],
+                    "algorithm_corrupted_op_rejected": db.get(cid, []) == [tb[ib]["oi"]]}
+            if not all(demo.values()):
+                raise vlib.Inconclusive("a corrupted trace record was not rejected: %s" % demo)
+
     ops_known = ops_bad = truncated = 0
     alg_only = []
     again = sorted(set(list(bad_abs)[:20] + list(bad_alg)[:20]))
@@ -715,7 +736,7 @@ def run_binding(ctx, rng, tier, res, edge_vecs, layouts, mc_futs):
         "truncated_by_known_finding": truncated,
         "hangs_first_pass": len(hangs), "notes": ctx.notes[:10],
         "refinement": {"cfg": res["ref"]["cfg"], "generated": res["ref"]["generated"], "distinct": res["ref"]["distinct"]},
-        "probe_outcomes_taken_in_mc": taken,
+        "probe_outcomes_taken_in_mc": taken, "binding_demo": demo,
         "negative_control_violated": res["neg"]["violated"], "empty_file_cfg_violated": res["empty"]["violated"],
         "exhaustive": False,
         "samples": samples,
@@ -765,6 +786,9 @@ def replay(ctx, path):
     else:
         b2 = {}
     for oi in sorted(set(b1.get(1, []) + b2.get(1, [])))[:5]:
-        out.setdefault("observed", []).append([r for r in rows if r["k"] == "op" and r["oi"] == oi][0])
+        rec = [r for r in rows if r["k"] == "op" and r["oi"] == oi][0]
+        out.setdefault("observed", []).append(
+            {k: (v if not isinstance(v, list) or len(v) <= 6 else v[:3] + ["..."] + v[-3:]) for k, v in rec.items()})
+    out["expected"] = "every op of the script admitted by TraceQLogFile (abstract reader) and TraceQLogFileAlg (algorithm, real constants)"
     print(json.dumps(out, indent=1, default=str)[:6000])
     return 1 if rc or b1 or b2 else 0
